@@ -8,7 +8,7 @@ import AvoVerif.Gen.MapRanges
 namespace Avo.Determinism
 
 /-- Every map iteration in the generation path, with the reason its order is irrelevant:
-* `AddInterferenceSet`  — edge *list* order; `update` treats edges as a set (measured; `_partial`, see DESIGN §4 C17)
+* `AddInterferenceSet`  — edge *list* order: `allocLoop_perm` (via `foldl_perm`: `update` treats the edges as a multiset)
 * `mostrestricted`      — `mostRestricted_perm`
 * `NewAllocator`        — `sortRegs_perm`
 * `RequiredISAExtensions` — followed by `sort.Strings` over a set (measured)
